@@ -60,10 +60,14 @@ condition on ONE lexeme, and the grammar takes these conditions as a parameter `
 * `postingAccountOk` — the account of a posting contains no `;` and is not just `*` or `!`
   (`  A;c  1 USD (a⏎b)⏎`: the parser ends the account at `;`; `  *⏎`: the parser reads a clear mark and then finds no
   account; an account such as `*A` is accepted — as the clear mark `*` and the account `A`);
-* `noteOk` — the text after the date of a transaction does not begin (after blanks and at most one clear mark) with a
-  `(` that has no `)` on the same line (the parser's transaction code runs across line ends to the next `)` of the file);
 * `applyTagOk` — the tag of `apply tag` contains no form feed (the parser's tag stops at ASCII white space, which
   includes U+000C; `no-sp` does not exclude it).
+
+A fourth condition existed until the defect it described was repaired in the code: `noteOk` — the text after the date of a
+transaction does not begin (after blanks and at most one clear mark) with a `(` that has no `)` on the same line — was needed
+while the parser's transaction code ran across line ends to the next `)` of the file (`2024/01/01 (⏎account X)⏎ note c  d⏎`
+was rejected).  `paren_str` now has to close on its line, the text after such a `(` is the payee as documented, and the
+condition is gone (`DocAcceptFindings.noteOk_not_needed`).
 -/
 namespace Okane.Spec.Doc
 
@@ -107,13 +111,11 @@ structure Dialect where
   numOk : List Char → Bool
   /-- on the text of the `account` of a `posting-line` -/
   postingAccountOk : List Char → Bool
-  /-- on the text of a `transcation-note` -/
-  noteOk : List Char → Bool
   /-- on the text of the `tag` of an `apply-tag` -/
   applyTagOk : List Char → Bool
 
 /-- the grammar exactly as documented: no side condition -/
-def Dialect.documented : Dialect := ⟨fun _ => true, fun _ => true, fun _ => true, fun _ => true⟩
+def Dialect.documented : Dialect := ⟨fun _ => true, fun _ => true, fun _ => true⟩
 
 /-! ## characters (`## characters` of the document) -/
 
@@ -257,11 +259,10 @@ def transactionCode : G :=
 /-- `payee ::= [^\r\n;]*` -/
 def payee : G := star (chr fun c => !(c == '\r' || c == '\n' || c == ';'))
 /-- `transcation-note ::= (clear-state sp*)? (transaction-code sp*)? payee`  (the document's spelling) -/
-def transactionNote (D : Dialect) : G :=
-  (opt (clearState ⬝ star sp) ⬝ opt (transactionCode ⬝ star sp) ⬝ payee).sat D.noteOk
+def transactionNote : G := opt (clearState ⬝ star sp) ⬝ opt (transactionCode ⬝ star sp) ⬝ payee
 /-- `transaction-header ::= transaction-date (sp+ transcation-note)? (new-line | metadata)`  (R6) -/
 def transactionHeader (D : Dialect) : G :=
-  transactionDate ⬝ opt (plus sp ⬝ transactionNote D) ⬝ (newLine ∥ (metadata ⬝ newLine))
+  transactionDate ⬝ opt (plus sp ⬝ transactionNote) ⬝ (newLine ∥ (metadata ⬝ newLine))
 /-- `transaction ::= transaction-header metadata* posting*`  (R7) -/
 def transaction (D : Dialect) : G := transactionHeader D ⬝ star metadataLine ⬝ star (posting D)
 
@@ -342,21 +343,10 @@ def DocLedger (D : Dialect) (t : List Char) : Prop := ledgerFile D t []
 /-- blanks removed from the front -/
 def stripSp (s : List Char) : List Char := s.dropWhile isSp
 
-/-- the text after the date begins — after blanks and at most one clear mark — with a `(` that is not closed on the line -/
-def noteHazard (n : List Char) : Bool :=
-  let a := stripSp n
-  let b := match a with
-    | c :: r => if c == '*' || c == '!' then stripSp r else a
-    | [] => []
-  match b with
-  | '(' :: r => !r.contains ')'
-  | _ => false
-
 /-- the side conditions under which every derivable text is accepted (each is necessary: `DocAcceptFindings`) -/
 def Dialect.accepted : Dialect where
   numOk := Representable
   postingAccountOk := fun a => !a.contains ';' && !(a == ['*'] || a == ['!'])
-  noteOk := fun n => !noteHazard n
   applyTagOk := fun t => !t.contains '\x0c'
 
 end Okane.Spec.Doc
